@@ -2,86 +2,216 @@ import BufProofs.Lemmas.AnnotLemmas
 /-
   C20 — Exit status and every diagnostic format tell the same verdict.
   Property theorems only; helper lemmas live in BufProofs/Lemmas/AnnotLemmas.lean, the model in
-  BufModel/Annot.lean (it describes the code after the two `fix:` changes; the pre-fix key and
+  BufModel/Annot.lean (it describes the code after the `fix:` changes; the pre-fix key and
   printers are kept for the `…_counterexample` theorems).
+
+  Sections: exit status over Go error values (trichotomy under `StepsOK`, the error → status
+  mapping, three necessity counterexamples) · `buf format` modes · de-duplication and order ·
+  the formats (record structure, `formats_decode` = parse ∘ print, cross-format agreement
+  `formats_carry_same_fields` on the fields two formats share).
 -/
 namespace BufProofs.C20
 open BufModel.Annot
 
-/-! ## exit status -/
+/-! ## exit status
+
+The commands are modelled over Go error VALUES (`GoErr`: FileAnnotationSet | ImportNotExistError |
+plain | fmt.Errorf-wrapped | *appError(code) | *syserror.Error | *connect.Error | errors.Join) and
+the code that classifies them as coded: `handleFAS` (controller.handleFileAnnotationSetRetError),
+the check loops of lint / breaking, `wrapError` (buf.go), `getExitCode` (app.GetExitCode),
+`textOf` (app.printError).  Hypothesis of the three trichotomy theorems, `StepsOK c`: an error a
+step returns has a message and carries no exit code of its own (in /repo the only creators of an
+*appError on these paths are bufctl.ErrFileAnnotation and wrapError itself — the harness scans the
+tree for others), and the `wasmRuntime.Close` error of lint / breaking is no system / connect
+error.  Each hypothesis is necessary: see the three `…_counterexample` theorems. -/
 
 /-- `build`, `lint`, `breaking`, `format` (in every output mode: `Cmd.format` carries the mode
     `-d` / `-w` / `-o` / `--exit-code` as a parameter) exit 0 exactly when there is nothing to
     report: no annotation was printed, no "Failure: …" line, no format difference. -/
-theorem exit_zero_iff_nothing (c : Cmd) :
+theorem exit_zero_iff_nothing (c : Cmd) (h : StepsOK c) :
     c.run.exit = 0 ↔ c.run.printed = [] ∧ c.run.failureLine = false ∧ c.run.diff = false := by
-  have h := run_consistent c
-  unfold Consistent at h
-  unfold Outcome.exit Outcome.failureLine
-  cases hf : c.run.final <;> rw [hf] at h <;> simp_all [Final.exit, exitCodeFileAnnotation]
-  intro hp
-  rcases h with h | h
-  · exact absurd hp h
-  · exact h
+  rcases shape_observables (run_shape c h) with ⟨h1, h2, h3, h4, _, _⟩ | ⟨h1, h2, _⟩ | ⟨e, _, _, h1, h2, h3, h4, _⟩
+  · simp [h1, h2, h3, h4]
+  · simp only [h1]
+    constructor
+    · intro h; cases h
+    · rintro ⟨hp, _, hd⟩
+      rcases h2 with h2 | h2
+      · exact absurd hp h2
+      · rw [hd] at h2; cases h2
+  · rw [h1, h3]
+    constructor
+    · intro h; split at h <;> cases h
+    · rintro ⟨_, hf, _⟩; cases hf
 
 /-- Status 100 exactly when the problem lies in the user's sources: annotations were printed,
-    an import could not be found, or `format --exit-code` found a difference — for every output
-    mode of `buf format` (see `format_diff_reported_iff` for when `diff` is set). -/
-theorem exit_100_iff_user_sources (c : Cmd) :
-    c.run.exit = 100 ↔ c.run.printed ≠ [] ∨ c.run.final = .importNotExist ∨ c.run.diff = true := by
-  have h := run_consistent c
-  unfold Consistent at h
-  unfold Outcome.exit
-  cases hf : c.run.final <;> rw [hf] at h <;> simp_all [Final.exit, exitCodeFileAnnotation]
+    an import could not be found (`importNotFound`: wrapError took its `errors.As(err,
+    &importNotExistError)` branch — characterised by `import_not_found_exits_100`), or `format
+    --exit-code` found a difference — for every output mode of `buf format` (see
+    `format_diff_reported_iff` for when `diff` is set). -/
+theorem exit_100_iff_user_sources (c : Cmd) (h : StepsOK c) :
+    c.run.exit = 100 ↔ c.run.printed ≠ [] ∨ c.run.importNotFound = true ∨ c.run.diff = true := by
+  rcases shape_observables (run_shape c h) with ⟨h1, h2, _, h4, h5, _⟩ | ⟨h1, h2, _⟩ | ⟨e, _, _, h1, h2, _, h4, h5⟩
+  · simp [h1, h2, h4, h5]
+  · simp only [h1, true_iff]
+    rcases h2 with h2 | h2
+    · exact Or.inl h2
+    · exact Or.inr (Or.inr h2)
+  · rw [h1, h2, h4, h5]
+    cases importBranch e <;> simp
 
-/-- Every other failure (operational error) exits with 1 — different from both 0 and 100 — and
-    says "Failure: …"; there is no fourth status. -/
-theorem exit_other_iff_operational (c : Cmd) :
-    (c.run.exit ≠ 0 ∧ c.run.exit ≠ 100 ↔ c.run.final = .other) ∧
-    (c.run.final = .other → c.run.exit = 1 ∧ c.run.failureLine = true ∧ c.run.printed = []) ∧
+/-- Every other failure (operational error: the command returned an error that is neither the
+    annotation sentinel nor reaches the import-not-found branch) exits with 1 — different from
+    both 0 and 100 — and says "Failure: …" with nothing printed; there is no fourth status. -/
+theorem exit_other_iff_operational (c : Cmd) (h : StepsOK c) :
+    (c.run.exit ≠ 0 ∧ c.run.exit ≠ 100 ↔
+      ∃ e, c.run.ret = some e ∧ e.noApp = true ∧ importBranch e = false) ∧
+    ((∃ e, c.run.ret = some e ∧ e.noApp = true ∧ importBranch e = false) →
+      c.run.exit = 1 ∧ c.run.failureLine = true ∧ c.run.printed = [] ∧ c.run.diff = false) ∧
     (c.run.exit = 0 ∨ c.run.exit = 100 ∨ c.run.exit = 1) := by
-  have h := run_consistent c
-  unfold Consistent at h
-  unfold Outcome.exit Outcome.failureLine
-  cases hf : c.run.final <;> rw [hf] at h <;> simp_all [Final.exit, exitCodeFileAnnotation]
+  rcases shape_observables (run_shape c h) with ⟨h1, _, _, _, _, h6⟩ | ⟨h1, _, e', he', hn'⟩ | ⟨e, he, hn, h1, h2, h3, h4, _⟩
+  · refine ⟨?_, ?_, Or.inl h1⟩
+    · simp [h1, h6]
+    · rintro ⟨e, he, _⟩; rw [h6] at he; cases he
+  · refine ⟨?_, ?_, Or.inr (Or.inl h1)⟩
+    · simp only [h1, ne_eq, not_true_eq_false, and_false, false_iff]
+      rintro ⟨e, he, hn, _⟩
+      rw [he'] at he; cases he; rw [hn'] at hn; cases hn
+    · rintro ⟨e, he, hn, _⟩
+      rw [he'] at he; cases he; rw [hn'] at hn; cases hn
+  · cases hb : importBranch e with
+    | true =>
+      rw [hb] at h1
+      replace h1 : c.run.exit = 100 := h1
+      refine ⟨?_, ?_, Or.inr (Or.inl h1)⟩
+      · simp only [h1, ne_eq, not_true_eq_false, and_false, false_iff]
+        rintro ⟨e2, he2, _, hb2⟩
+        rw [he] at he2; cases he2; rw [hb] at hb2; cases hb2
+      · rintro ⟨e2, he2, _, hb2⟩
+        rw [he] at he2; cases he2; rw [hb] at hb2; cases hb2
+    | false =>
+      rw [hb] at h1
+      replace h1 : c.run.exit = 1 := h1
+      refine ⟨?_, fun _ => ⟨h1, h3, h2, h4⟩, Or.inr (Or.inr h1)⟩
+      simp only [h1]
+      exact ⟨fun _ => ⟨e, he, hn, hb⟩, fun _ => ⟨by decide, by decide⟩⟩
+
+/-- The error → exit status mapping itself (wrapError + GetExitCode + printError, as coded), for
+    EVERY error value without an exit code of its own: 100 exactly when wrapError's
+    import-not-found branch is taken, 1 otherwise; a "Failure:" line exactly when the error has a
+    message. -/
+theorem error_exit_status (e : GoErr) (h : e.noApp = true) :
+    getExitCode (wrapError (some e)) = (if importBranch e then 100 else 1) ∧
+    textOf (wrapError (some e)) = e.text :=
+  ⟨wrapError_exit e h, wrapError_failureLine e⟩
+
+/-- "an import could not be found ⇒ 100": an error tree that holds an ImportNotExistError below
+    ANY stack of wrappers (fmt.Errorf %w, errors.Join, even a foreign *appError), and no connect /
+    system error, exits 100 with a "Failure:" line.  (With a *syserror.Error or one of the special
+    connect codes in the tree wrapError drops the chain first and the status is 1 — as coded.) -/
+theorem import_not_found_exits_100 (e : GoErr) (hc : e.findConnect = none) (hs : e.findSys = none)
+    (hi : e.hasImport = true) :
+    importBranch e = true ∧ getExitCode (wrapError (some e)) = 100 ∧ textOf (wrapError (some e)) = true := by
+  have ht := text_of_hasImport hi
+  refine ⟨by simp [importBranch, hc, ht, sysStrip, hs, hi], ?_, by rw [wrapError_failureLine, ht]⟩
+  simp only [wrapError, hc, ht, if_true, wrapTail, sysStrip, hs, hi, newAppError_100, getExitCode, GoErr.findApp]
+  rfl
+
+/-- A FileAnnotationSet ANYWHERE in the error tree of a controller method is printed
+    (de-duplicated, sorted) and turns into status 100 without a "Failure:" line. -/
+theorem annotation_set_exits_100 (e : GoErr) (hd : Annot) (tl : List Annot) (h : e.findAnnots = some (hd, tl)) :
+    (failStep e []).printed = dedupSort (hd :: tl) ∧ (failStep e []).printed ≠ [] ∧
+    (failStep e []).exit = 100 ∧ (failStep e []).failureLine = false := by
+  have h1 : handleFAS e = (errFileAnnotation, dedupSort (hd :: tl)) := by simp [handleFAS, h]
+  refine ⟨by simp [failStep, h1], by simpa [failStep, h1] using dedupSort_ne_nil (List.cons_ne_nil hd tl), ?_, ?_⟩
+  · simp only [Outcome.exit, Outcome.err, failStep, h1, errFileAnnotation_facts.1, errFileAnnotation_facts.2.1]
+  · simp only [Outcome.failureLine, Outcome.err, failStep, h1, errFileAnnotation_facts.1, textOf,
+      errFileAnnotation_facts.2.2.1]
 
 private def ex1 : Annot :=
   { file := some "a.proto".toList, sl := 1, sc := 23, el := 1, ec := 29,
     type := "FIELD_LOWER_SNAKE_CASE".toList, msg := "m".toList, plugin := [] }
 private def ex2 : Annot := { ex1 with sl := 12, sc := 3, el := 12, ec := 9 }
 
+/-- Necessity of `CloseBenign`: `buf lint` printed annotations, then `wasmRuntime.Close` fails with
+    a system error — wrapError keeps only what the *syserror.Error wraps, the ErrFileAnnotation it
+    was joined with is lost, and the status is 1 although annotations were printed (as coded; not
+    reachable in the harness). -/
+theorem close_syserror_counterexample :
+    (Cmd.lint [] [] [some (.annotSet ex1 [])] (some (.sys (.plain true)))).run.printed ≠ [] ∧
+    (Cmd.lint [] [] [some (.annotSet ex1 [])] (some (.sys (.plain true)))).run.exit = 1 := by decide
+
+/-- Necessity of "a step error has a message": errors.New("") from a step gives status 1 and no
+    output at all. -/
+theorem silent_error_counterexample :
+    (Cmd.build [(false, some (.plain false))]).run.exit = 1 ∧
+    (Cmd.build [(false, some (.plain false))]).run.failureLine = false ∧
+    (Cmd.build [(false, some (.plain false))]).run.printed = [] := by decide
+
+/-- Necessity of "no exit code of its own": a step returning app.NewError(100, "x") exits 100
+    with nothing printed and no import involved. -/
+theorem foreign_exit_code_counterexample :
+    (Cmd.build [(true, some (.app 100 (.plain true)))]).run.exit = 100 ∧
+    (Cmd.build [(true, some (.app 100 (.plain true)))]).run.printed = [] ∧
+    (Cmd.build [(true, some (.app 100 (.plain true)))]).run.importNotFound = false := by decide
+
 -- non-vacuity: each status is reached, by each kind of cause
-example : (Cmd.lint [none] [none, none]).run.exit = 0 := by decide
-example : (Cmd.lint [none] [none, some (.annots ex1 [ex2])]).run.exit = 100 := by decide
-example : (Cmd.lint [none] [none, some (.annots ex1 [ex2])]).run.printed.length = 2 := by decide
-example : (Cmd.build [some (.annots ex1 [])]).run.exit = 100 := by decide
-example : (Cmd.breaking [none, some .importNotExist] []).run.exit = 100 := by decide
-example : (Cmd.lint [none] [some (.annots ex1 []), some .other]).run = { final := .other, printed := [], diff := false } := by decide
+private def ok1 : CStep := (true, none)
+private def annStep (l : List Annot) : Step := match l with | [] => none | a :: t => some (.annotSet a t)
+example : (Cmd.lint [none] [ok1] [none, none] none).run.exit = 0 := by decide
+example : (Cmd.lint [none] [ok1] [none, some (.annotSet ex1 [ex2])] none).run.exit = 100 := by decide
+example : (Cmd.lint [none] [ok1] [none, some (.wrapf (.annotSet ex1 [ex2]))] none).run.printed.length = 2 := by decide
+example : (Cmd.build [(true, some (.annotSet ex1 []))]).run.exit = 100 := by decide
+example : (Cmd.depGraph [ok1, (false, some (.wrapf .importNotExist))]).run.exit = 100 := by decide
+example : (Cmd.depGraph [ok1, (false, some (.wrapf .importNotExist))]).run.failureLine = true := by decide
+example : (Cmd.breaking [] [ok1, (true, some .importNotExist)] [] none).run.importNotFound = true := by decide
+-- annotations collected, then a check fails otherwise: nothing printed, status 1
+example : (Cmd.lint [] [ok1] [some (.annotSet ex1 []), some (.plain true)] none).run =
+    { ret := some (.plain true), printed := [], diff := false } := by decide
+example : (Cmd.lint [] [ok1] [some (.annotSet ex1 []), some (.plain true)] none).run.exit = 1 := by decide
+-- annotations printed and a (benign) close error: still 100, now with a Failure line
+example : (Cmd.lint [] [ok1] [some (.annotSet ex1 [])] (some (.plain true))).run.exit = 100 ∧
+    (Cmd.lint [] [ok1] [some (.annotSet ex1 [])] (some (.plain true))).run.failureLine = true := by decide
+-- an image that lacks a dependency: a system error, status 1
+example : (Cmd.lint [] [(true, some (.sys (.plain true)))] [] none).run.exit = 1 := by decide
+example : StepsOK (Cmd.lint [none] [ok1] [none, some (.annotSet ex1 [ex2])] (some (.plain true))) := by
+  refine ⟨?_, ?_⟩
+  · intro e he
+    simp only [Cmd.stepErrs, ok1, List.map_cons, List.map_nil, List.cons_append, List.nil_append, List.filterMap_cons,
+      List.filterMap_nil, id, List.mem_cons, List.not_mem_nil, or_false] at he
+    rcases he with rfl | rfl <;> exact ⟨rfl, rfl⟩
+  · intro e he; cases he; exact ⟨rfl, rfl⟩
+example : importBranch (.join (.wrapf (.wrapf .importNotExist)) (.plain true)) = true := by decide
+example : importBranch (.sys (.wrapf .importNotExist)) = true := by decide
+example : importBranch (.join (.sys (.plain true)) .importNotExist) = false := by decide
 private def mDiffExit : FmtMode := { diff := true, write := false, out := .stdout, exitCode := true }
-example : (Cmd.format mDiffExit true [none] none true .ok).run.exit = 100 := by decide
-example : (Cmd.format mDiffExit true [none] none false .ok).run.exit = 0 := by decide
-example : (Cmd.format { mDiffExit with exitCode := false } true [none] none true .ok).run.exit = 0 := by decide
-example : (Cmd.format mDiffExit true [none] (some .other) true .ok).run.exit = 1 := by decide
+example : (Cmd.format mDiffExit true [ok1] none true .ok).run.exit = 100 := by decide
+example : (Cmd.format mDiffExit true [ok1] none false .ok).run.exit = 0 := by decide
+example : (Cmd.format { mDiffExit with exitCode := false } true [ok1] none true .ok).run.exit = 0 := by decide
+example : (Cmd.format mDiffExit true [ok1] (some (.plain true)) true .ok).run.exit = 1 := by decide
 
 /-! ## `buf format`: the verdict is the same in every output mode -/
 
 /-- `--exit-code` in EVERY mode — plain, `-d`, `-w`, `-d -w`, `-o X`, `-d -o X`: when nothing
     operational goes wrong the exit status is 100 exactly when the flag is given and a file is
     not formatted, 0 otherwise; no annotation and no "Failure:" line is printed. -/
-theorem format_exit_code_every_mode (m : FmtMode) (sw : Bool) (ctl : List Step) (f : Step) (d : Bool)
+theorem format_exit_code_every_mode (m : FmtMode) (sw : Bool) (ctl : List CStep) (f : Step) (d : Bool)
     (io : FmtIO) (h : FmtClean m sw ctl f d io) :
     (Cmd.format m sw ctl f d io).run.exit = (if m.exitCode && d then 100 else 0) ∧
     (Cmd.format m sw ctl f d io).run.printed = [] ∧
     (Cmd.format m sw ctl f d io).run.failureLine = false := by
   simp only [Cmd.run, format, formatFull_clean h, fmtDeferred]
-  split <;> simp [Outcome.exit, Outcome.failureLine, Final.exit, exitCodeFileAnnotation]
+  split
+  · simp only [Outcome.exit, Outcome.failureLine, Outcome.err, errFileAnnotation_facts.1,
+      errFileAnnotation_facts.2.1, textOf, errFileAnnotation_facts.2.2.1, and_self]
+  · simp [Outcome.exit, Outcome.failureLine, Outcome.err, Outcome.ok, wrapError, getExitCode, textOf]
 
 /-- The "difference found" verdict, completely, for every mode: it is reported exactly when
     `--exit-code` is given, a difference exists, the flag combination is valid, and no step of
     the run — controller, formatter, or an I/O step THE MODE PERFORMS — failed.  Together with
     `exit_100_iff_user_sources` (which quantifies over all modes through `Cmd.format`): no mode
     loses the 100 and no mode invents one. -/
-theorem format_diff_reported_iff (m : FmtMode) (sw : Bool) (ctl : List Step) (f : Step) (d : Bool)
+theorem format_diff_reported_iff (m : FmtMode) (sw : Bool) (ctl : List CStep) (f : Step) (d : Bool)
     (io : FmtIO) :
     (Cmd.format m sw ctl f d io).run.diff = true ↔
       m.exitCode = true ∧ d = true ∧ FmtClean m sw ctl f d io := by
@@ -91,7 +221,7 @@ theorem format_diff_reported_iff (m : FmtMode) (sw : Bool) (ctl : List Step) (f 
     by_cases hv : m.valid sw = true
     · rw [hv] at h
       simp only [Bool.not_true, Bool.false_eq_true, if_false] at h
-      cases hr : runSteps (ctl ++ [f]) with
+      cases hr : runSteps (ctl ++ [(false, f)]) with
       | some o =>
         rw [hr] at h
         exact absurd h (by rw [runSteps_diff _ o hr]; decide)
@@ -105,14 +235,14 @@ theorem format_diff_reported_iff (m : FmtMode) (sw : Bool) (ctl : List Step) (f 
           · rename_i he
             simp only [Bool.and_eq_true] at he
             exact ⟨he.1, he.2, hv, fun s hs => hall s (List.mem_append_left _ hs),
-              hall f (List.mem_append_right _ (List.mem_singleton.mpr rfl)), hio⟩
+              hall (false, f) (List.mem_append_right _ (List.mem_singleton.mpr rfl)), hio⟩
           · exact absurd h (by decide)
         · obtain ⟨e, he⟩ := fmtTail_dirty m d io hio
-          rw [he, failStep_diff] at h
+          rw [he.2, failDirect_diff] at h
           exact absurd h (by decide)
     · have hv' : m.valid sw = false := by simpa using hv
       rw [hv'] at h
-      simp only [Bool.not_false, if_true] at h
+      simp only [Bool.not_false, if_true, failDirect_diff] at h
       exact absurd h (by decide)
   · rintro ⟨he, hd, hc⟩
     subst hd
@@ -122,7 +252,7 @@ theorem format_diff_reported_iff (m : FmtMode) (sw : Bool) (ctl : List Step) (f 
 
 /-- Two valid modes with the same `--exit-code` setting give the same exit status on the same
     sources: the verdict does not depend on WHERE the result goes. -/
-theorem format_verdict_mode_independent (m1 m2 : FmtMode) (sw : Bool) (ctl : List Step) (f : Step)
+theorem format_verdict_mode_independent (m1 m2 : FmtMode) (sw : Bool) (ctl : List CStep) (f : Step)
     (d : Bool) (io1 io2 : FmtIO) (he : m1.exitCode = m2.exitCode)
     (h1 : FmtClean m1 sw ctl f d io1) (h2 : FmtClean m2 sw ctl f d io2) :
     (Cmd.format m1 sw ctl f d io1).run.exit = (Cmd.format m2 sw ctl f d io2).run.exit := by
@@ -132,7 +262,7 @@ theorem format_verdict_mode_independent (m1 m2 : FmtMode) (sw : Bool) (ctl : Lis
 /-- Already formatted input exits 0 in every mode, with or without `--exit-code` — in particular
     the second run after `-w` (which rewrote every changed file: `rewrote = d`; that re-formatting
     the formatted file changes nothing is C07's idempotence). -/
-theorem format_formatted_input_exits_zero (m : FmtMode) (sw : Bool) (ctl : List Step) (f : Step)
+theorem format_formatted_input_exits_zero (m : FmtMode) (sw : Bool) (ctl : List CStep) (f : Step)
     (io : FmtIO) (h : FmtClean m sw ctl f false io) :
     (Cmd.format m sw ctl f false io).run.exit = 0 := by
   rw [(format_exit_code_every_mode m sw ctl f false io h).1]
@@ -142,7 +272,7 @@ theorem format_formatted_input_exits_zero (m : FmtMode) (sw : Bool) (ctl : List 
     when one exists; the formatted source goes to stdout only in the plain mode; files are
     rewritten exactly with `-w` when a difference exists; the `-o` location is written exactly
     without `-w` when `-o` names a path. -/
-theorem format_effects_by_mode (m : FmtMode) (sw : Bool) (ctl : List Step) (f : Step) (d : Bool)
+theorem format_effects_by_mode (m : FmtMode) (sw : Bool) (ctl : List CStep) (f : Step) (d : Bool)
     (io : FmtIO) (h : FmtClean m sw ctl f d io) :
     (formatFull m sw ctl f d io).2 =
       { stdoutDiff := m.diff && d,
@@ -153,26 +283,26 @@ theorem format_effects_by_mode (m : FmtMode) (sw : Bool) (ctl : List Step) (f : 
 
 /-- An invalid flag combination (`-w` with `-o`, `-w` on a source that cannot be rewritten) is an
     operational error in every mode: status 1 with a "Failure:" line, nothing done. -/
-theorem format_invalid_mode_is_operational (m : FmtMode) (sw : Bool) (ctl : List Step) (f : Step)
+theorem format_invalid_mode_is_operational (m : FmtMode) (sw : Bool) (ctl : List CStep) (f : Step)
     (d : Bool) (io : FmtIO) (h : m.valid sw = false) :
     (Cmd.format m sw ctl f d io).run.exit = 1 ∧ (Cmd.format m sw ctl f d io).run.failureLine = true ∧
     (formatFull m sw ctl f d io).2 = FmtEffects.none := by
   simp only [Cmd.run, format, formatFull, h, Bool.not_false, if_true]
-  refine ⟨?_, ?_, ?_⟩ <;> first | rfl | trivial
+  refine ⟨?_, ?_, ?_⟩ <;> first | rfl | decide
 
 -- non-vacuity: all 16 flag combinations exist, the 12 valid ones are clean on an all-ok run and
 -- give 100 exactly for the six with --exit-code when a difference exists
 example : FmtMode.all.length = 16 := by decide
 example : (FmtMode.all.filter (·.valid true)).length = 12 := by decide
-example : ((FmtMode.all.filter (·.valid true)).map fun m => (Cmd.format m true [none] none true .ok).run.exit)
+example : ((FmtMode.all.filter (·.valid true)).map fun m => (Cmd.format m true [(true, none)] none true .ok).run.exit)
     = [0, 100, 0, 100, 0, 100, 0, 100, 0, 100, 0, 100] := by decide
-example : ∀ m ∈ FmtMode.all, (Cmd.format m true [none] none false .ok).run.exit = if m.valid true then 0 else 1 := by decide
-example : FmtClean mDiffExit true [none] none true .ok := by
+example : ∀ m ∈ FmtMode.all, (Cmd.format m true [(true, none)] none false .ok).run.exit = if m.valid true then 0 else 1 := by decide
+example : FmtClean mDiffExit true [(true, none)] none true .ok := by
   refine ⟨by decide, by simp, rfl, by decide⟩
 -- a failing output step in `-d -o X --exit-code`: the diff was printed, the error wins
-example : formatFull { diff := true, write := false, out := .path, exitCode := true } true [none] none true
-    { FmtIO.ok with output := some .other } =
-    ({ final := .other, printed := [], diff := false }, { FmtEffects.none with stdoutDiff := true }) := by decide
+example : formatFull { diff := true, write := false, out := .path, exitCode := true } true [(true, none)] none true
+    { FmtIO.ok with output := some (.plain true) } =
+    ({ ret := some (.plain true), printed := [], diff := false }, { FmtEffects.none with stdoutDiff := true }) := by decide
 
 /-! ## de-duplication and order -/
 
@@ -302,36 +432,143 @@ theorem line_formats_wellformed (as : List Annot) :
   · rw [hg, List.length_map]
   · rw [hm, List.length_map]
 
-/-- Agreement on every field a format carries: the text line, the msvs line and the JUnit
-    testcase are functions of the JSON record of the same annotation (file, line, column, rule
-    ID, message, plugin — with msvs flattening line breaks), so no format can show a different
-    file, position, rule ID or message than json does.  (Side condition: a non-nil FileInfo has a
-    non-empty path; a JSON record without `path` means "no file".) -/
-theorem formats_carry_same_fields (a : Annot) (h : a.file ≠ some []) :
-    textLine a = textOfRec (jsonRec a) ∧
-    msvsLine a = msvsOfRec (jsonRec a) ∧
-    render .junit a = .junit (trimProto (recPath (jsonRec a)))
-      { name := junitCaseName a, message := textOfRec (jsonRec a), type := (jsonRec a).type } := by
-  have hp := recPath_jsonRec h
-  refine ⟨?_, ?_, ?_⟩
-  · unfold textLine textOfRec; rw [hp]; rfl
-  · unfold msvsLine msvsLineWith msvsOfRec; rw [hp]; rfl
-  · have : textLine a = textOfRec (jsonRec a) := by unfold textLine textOfRec; rw [hp]; rfl
-    simp only [render, junitCase, hp, this]; rfl
+/-! ### the decoder statements: "agreeing on every field the format carries" -/
 
-/-- github-actions carries file, position and message: the escaped file value contains no ','
-    or ':' (so it ends exactly where `,line=` or `::` begins), the GitHub runner's unescaping
-    gives back the displayed path and the message + plugin suffix exactly, and the position
-    properties are the raw numbers (`line=`/`col=`/`endLine=`/`endColumn=`, each omitted when
-    unknown = 0, which json shows as 1). -/
+/-- `parse_f (print_f as) = as.map proj_f` for every --error-format: decoding the printed
+    document (`parseDoc`: split into records, then split each record at the format's separators /
+    undo GitHub's escaping) gives back, record by record and in order, the fields format `f`
+    carries (`proj f`) of the de-duplicated, sorted annotations.  Side condition `Side f as`:
+    none for github-actions (escaped) and json (field level); text: no ':' in a displayed path,
+    no line feed in a line; msvs: no '(' in a displayed path, no ':' in a type; junit: the text
+    line carried as message decodes and grouping by path keeps the order. -/
+theorem formats_decode (f : Format) (as : List Annot) (h : Side f as) :
+    parseDoc f (printSet f as) = some ((dedupSort as).map (proj f)) := by
+  have hitems : (printSet f as).items = (dedupSort as).map (render f) :=
+    formats_agree f as
+      (fun hf a ha => by subst hf; exact (h a ha).2)
+      (fun hf => by subst hf; exact h.1)
+  unfold parseDoc
+  rw [hitems]
+  exact mapM_map_some _ (fun a ha => parseItem_render f as h a (dedupSort_subset ha))
+
+/-- The side condition of the text decoder is exactly right: the decoder (path = everything before
+    the first ':') returns the fields of an annotation iff its displayed path has no ':'. -/
+theorem text_decode_iff (a : Annot) :
+    parseTextLine (textLine a) = some (textF a) ↔ ∀ c ∈ dispPath a, c ≠ ':' :=
+  ⟨fun h => parseTextLine_path h, parseTextLine_textLine a⟩
+
+/-- … and so is the msvs one: the path ends at the first '(', the type at the first ':'. -/
+theorem msvs_decode_iff (a : Annot) :
+    parseMsvsLine (msvsLine a) = some (msvsF a) ↔
+      (∀ c ∈ dispPath a, c ≠ '(') ∧ (∀ c ∈ shownType a, c ≠ ':') := by
+  constructor
+  · intro h
+    have := parseMsvsLine_fields h
+    simp only [msvsF] at this
+    refine ⟨fun c hc e => ?_, fun c hc e => ?_⟩
+    · subst e
+      exact this.1 '(' (by
+        simp only [oneLine, List.mem_map]
+        exact ⟨'(', hc, by decide⟩) rfl
+    · subst e
+      exact this.2 ':' (by
+        simp only [oneLine, List.mem_map]
+        exact ⟨':', hc, by decide⟩) rfl
+  · rintro ⟨h1, h2⟩; exact parseMsvsLine_msvsLine a h1 h2
+
+/-- No decoder at all can do without a condition on text paths: these two different annotations
+    print the same text line (`a:1:1:2:2:x`). -/
+theorem text_colon_path_counterexample :
+    textLine { file := some "a:1:1".toList, sl := 2, sc := 2, el := 0, ec := 0, type := [], msg := "x".toList, plugin := [] }
+    = textLine { file := some "a".toList, sl := 1, sc := 1, el := 0, ec := 0, type := [], msg := "2:2:x".toList, plugin := [] } := by
+  decide
+
+/-- … nor on msvs paths. -/
+theorem msvs_paren_path_counterexample :
+    msvsLine { file := some "a(1,1) : error X : m".toList, sl := 2, sc := 2, el := 0, ec := 0, type := "Y".toList, msg := "n".toList, plugin := [] }
+    = msvsLine { file := some "a".toList, sl := 1, sc := 1, el := 0, ec := 0, type := "X".toList, msg := "m(2,2) : error Y : n".toList, plugin := [] } := by
+  decide
+
+/-- github-actions, unconditionally and per line: the decoder — `file=` value up to the first ','
+    or ':', the optional `line` / `col` / `endLine` / `endColumn` properties, the data after `::`,
+    both passed through the runner's unescape (`unescProp` / `unescData`, the very functions the
+    decoder runs) — returns path, raw position and message + plugin exactly, for ANY strings. -/
 theorem gha_fields_roundtrip (a : Annot) :
-    ghaLine a = "::error file=".toList ++ escProp (dispPath a) ++ ghaPos a ++ "::".toList
-      ++ escData a.msg ++ pluginSuffix escData a.plugin ∧
+    parseGhaLine (ghaLine a) = some (ghaF a) ∧
     unescProp (escProp (dispPath a)) = dispPath a ∧
-    unescData (escData a.msg) = a.msg ∧
-    unescData (escData a.plugin) = a.plugin ∧
+    unescData (escData (withPlugin a.msg a.plugin)) = withPlugin a.msg a.plugin ∧
     (∀ c ∈ escProp (dispPath a), c ≠ ',' ∧ c ≠ ':') :=
-  ⟨rfl, unescProp_escProp _, unescData_escData _, unescData_escData _, escProp_no_sep _⟩
+  ⟨parseGhaLine_ghaLine a, unescProp_escProp _, unescData_escData _, escProp_no_sep _⟩
+
+/-- Agreement on every field a format carries, for ANY two formats f and g (github-actions and
+    junit included): decode what each printed; then, record by record and in the same order, the
+    projections of the two decoded records onto the fields BOTH carry (`Shared.restrict`: file at
+    the precision both show it, start / end position, rule ID, message) are equal.  So no format
+    shows a different file, position, rule ID or message than another one. -/
+theorem formats_carry_same_fields (f g : Format) (as : List Annot) (hf : Side f as) (hg : Side g as) :
+    ∃ df dg, parseDoc f (printSet f as) = some df ∧ parseDoc g (printSet g as) = some dg ∧
+      InOrder (fun x y => (view x).restrict (view y) = (view y).restrict (view x)) df dg := by
+  refine ⟨_, _, formats_decode f as hf, formats_decode g as hg, ?_⟩
+  generalize dedupSort as = l
+  induction l with
+  | nil => exact InOrder.nil
+  | cons a t ih =>
+    exact InOrder.cons (restrict_comm (view_sub f a) (view_sub g a)) ih
+
+/-- Which property-level fields each format carries (so that the agreement above is not
+    vacuous): text — file, line, column, message; msvs — file (flattened), line, column, type,
+    message (flattened); json — everything (file unless the path key is absent); junit — file,
+    suite, line, column, rule ID, message; github-actions — file, message and each position number
+    that is known (0 = the key is absent). -/
+theorem formats_fields_present (a : Annot) :
+    ((view (proj .text a)).file.isSome ∧ (view (proj .text a)).line.isSome ∧
+      (view (proj .text a)).col.isSome ∧ (view (proj .text a)).text.isSome) ∧
+    ((view (proj .msvs a)).fileFlat.isSome ∧ (view (proj .msvs a)).line.isSome ∧
+      (view (proj .msvs a)).col.isSome ∧ (view (proj .msvs a)).ruleFlat.isSome ∧
+      (view (proj .msvs a)).textFlat.isSome) ∧
+    ((view (proj .json a)).line.isSome ∧ (view (proj .json a)).col.isSome ∧
+      (view (proj .json a)).endLine.isSome ∧ (view (proj .json a)).endCol.isSome ∧
+      (view (proj .json a)).rule.isSome ∧ (view (proj .json a)).text.isSome ∧
+      (view (proj .json a)).message.isSome ∧
+      ((view (proj .json a)).file.isSome ↔ pathOf a ≠ [])) ∧
+    ((view (proj .junit a)).file.isSome ∧ (view (proj .junit a)).suite.isSome ∧
+      (view (proj .junit a)).line.isSome ∧ (view (proj .junit a)).col.isSome ∧
+      (view (proj .junit a)).rule.isSome ∧ (view (proj .junit a)).text.isSome) ∧
+    ((view (proj .gha a)).file.isSome ∧ (view (proj .gha a)).message.isSome ∧
+      ((view (proj .gha a)).line.isSome ↔ a.sl ≠ 0) ∧
+      ((view (proj .gha a)).col.isSome ↔ a.sl ≠ 0 ∧ a.sc ≠ 0) ∧
+      ((view (proj .gha a)).endLine.isSome ↔ a.sl ≠ 0 ∧ a.el ≠ 0) ∧
+      ((view (proj .gha a)).endCol.isSome ↔ a.sl ≠ 0 ∧ a.el ≠ 0 ∧ a.ec ≠ 0)) := by
+  refine ⟨⟨rfl, rfl, rfl, rfl⟩, ⟨rfl, rfl, rfl, rfl, rfl⟩, ⟨rfl, rfl, rfl, rfl, rfl, rfl, rfl, ?_⟩,
+    ⟨rfl, rfl, rfl, rfl, rfl, rfl⟩, ⟨rfl, rfl, ?_, ?_, ?_, ?_⟩⟩
+  · simp only [view, proj, jsonRec]
+    by_cases h : pathOf a = [] <;> simp [h]
+  · simp only [view, proj, ghaF, known]
+    by_cases h : a.sl = 0 <;> simp [h]
+  · simp only [view, proj, ghaF, known]
+    by_cases h : a.sl = 0 <;> by_cases h2 : a.sc = 0 <;> simp [h, h2]
+  · simp only [view, proj, ghaF, known]
+    by_cases h : a.sl = 0 <;> by_cases h2 : a.el = 0 <;> simp [h, h2]
+  · simp only [view, proj, ghaF, known]
+    by_cases h : a.sl = 0 <;> by_cases h2 : a.el = 0 <;> by_cases h3 : a.ec = 0 <;> simp [h, h2, h3]
+
+/-- github-actions shows the message itself, text / msvs / junit fall back to the rule ID (then
+    "FAILURE") when it is empty: for an annotation with a message the github-actions data IS the
+    text the others show; for an empty message it is not (as coded: "should never happen"). -/
+theorem gha_text_message_agree (a : Annot) (h : a.msg ≠ []) :
+    (view (proj .gha a)).message = (view (proj .text a)).text ∧
+    (view (proj .gha a)).message = (view (proj .junit a)).text ∧
+    (view (proj .gha a)).message = (view (proj .json a)).text := by
+  simp [view, proj, ghaF, textF, junitF, viewText, jsonRec, shownMsg, shownMsgOf, h]
+
+/-- JUnit testcase names: `junitCaseName` is a function of the rule ID and the RAW start line /
+    column only (`junitName`), and the position can be read back from the name after the rule ID
+    (0 = unknown — json shows 1 there). -/
+theorem junit_name_factored (a : Annot) :
+    junitCaseName a = junitName a.type a.sl a.sc ∧
+    (dropPrefix a.type (junitCaseName a)).bind parsePosSuffix = some (a.sl, a.sc) := by
+  refine ⟨rfl, ?_⟩
+  simp only [junitCaseName, junitName, dropPrefix_append, Option.bind_some, parsePosSuffix_junitPosSuffix]
 
 private def exNl : Annot :=
   { file := some "a.proto".toList, sl := 3, sc := 1, el := 3, ec := 4, type := "X".toList,
@@ -352,7 +589,32 @@ example : (printSet .junit [ex2, ex1]).items =
     [.junit "a".toList (junitCase ex1), .junit "a".toList (junitCase ex2)] := by decide
 example : (printSet .text [ex2, ex1]).items =
     [.line "a.proto:1:23:m".toList, .line "a.proto:12:3:m".toList] := by decide
-example : ex1.file ≠ some [] := by decide
+-- non-vacuity of the decoder statements: the side conditions hold for ordinary annotations, the
+-- decoders run, and two formats share fields
+example : ∀ f ∈ Format.all, Side f [ex2, ex1, exNl] ∨ f = .text := by
+  intro f hf
+  simp only [Format.all, List.mem_cons, List.mem_nil_iff, or_false] at hf
+  rcases hf with rfl | rfl | rfl | rfl | rfl
+  · exact Or.inr rfl
+  · exact Or.inl trivial
+  · exact Or.inl (by intro a ha; revert a; decide)
+  · exact Or.inl ⟨by intro a ha b hb; revert a b; decide, by intro a ha; revert a; decide⟩
+  · exact Or.inl trivial
+example : Side .text [ex2, ex1] := by intro a ha; revert a; decide
+example : parseDoc .text (printSet .text [ex2, ex1]) =
+    some [.text { path := "a.proto".toList, line := 1, col := 23, text := "m".toList },
+          .text { path := "a.proto".toList, line := 12, col := 3, text := "m".toList }] := by decide
+example : parseDoc .gha (printSet .gha [exNl]) =
+    some [.gha { path := "a.proto".toList, line := 3, col := 1, endLine := 3, endCol := 4,
+                 msg := "first\nsecond".toList }] := by decide
+example : parseDoc .msvs (printSet .msvs [exNl]) =
+    some [.msvs { path := "a.proto".toList, line := 3, col := 1, type := "X".toList,
+                  text := "first second".toList }] := by decide
+example : ((view (proj .gha exNl)).restrict (view (proj .msvs exNl))) =
+    { file := none, fileFlat := some "a.proto".toList, suite := none, line := some 3, col := some 1,
+      endLine := none, endCol := none, rule := none, ruleFlat := none, text := none, textFlat := none,
+      message := none } := by decide
+example : parseJunitCase "a".toList (junitCase ex1) = some (junitF ex1) := by decide
 example : escProp "c:d,e%.proto".toList = "c%3Ad%2Ce%25.proto".toList := by decide
 example : DispInj [ex1, ex2, exNl] := by
   intro a ha b hb; revert a b; decide
